@@ -315,7 +315,11 @@ def classify_sampled_index(off, si, pos, mode):
             if abs(abs(F(pos)) - b) <= EPS * b:
                 return "marginal"
     if not exact and abs((X - ffloor(X)) - Fraction(1, 2)) <= EPS * scale:
-        return "marginal"
+        # float rounding may pick the other neighbour as `index`; harmless when neither neighbour is "close"
+        # (band below a quarter sample): the answer is then floor-based whichever index was rounded to
+        if band(T["sampledHitTol"], ffloor(X) + 1) >= Fraction(1, 4):
+            return "marginal"
+        return "separated"
     idx = round_half_even(X)
     b = band(T["sampledHitTol"], idx)
     if abs(abs(X - idx) - b) <= EPS * (b + scale):
@@ -584,7 +588,7 @@ def correspondence(ctx):
     impl = Impl(ctx, "corr")
     disagreements = []
     seen = set()
-    dist = {"ops": {}, "class": {}, "impl_outcome": {}, "modes": {}}
+    dist = {"ops": {}, "class": {}, "class_by_op": {}, "impl_outcome": {}, "modes": {}}
     marginal_differ = 0
     compared = 0
     try:
@@ -593,6 +597,9 @@ def correspondence(ctx):
             cl = classify(c)
             dist["ops"][t] = dist["ops"].get(t, 0) + 1
             dist["class"][cl] = dist["class"].get(cl, 0) + 1
+            if t.startswith("sampled.") or t.startswith("set."):
+                k = t + ":" + cl
+                dist["class_by_op"][k] = dist["class_by_op"].get(k, 0) + 1
             oc = "err:" + i["err"] if "err" in i else ("none" if i.get("ok") is None else "ok")
             dist["impl_outcome"][oc] = dist["impl_outcome"].get(oc, 0) + 1
             sc = strip(c)
